@@ -124,13 +124,15 @@ impl Record {
     /// # Ok::<_, std::io::Error>(())
     /// ```
     pub fn end(&self) -> io::Result<Position> {
-        let Some(start) = self.variant_start().transpose()? else {
-            todo!();
-        };
+        // A telomeric start is clamped like in `vcf::variant::Record::variant_end`.
+        let start = self.variant_start().transpose()?.unwrap_or(Position::MIN);
 
-        let len = self.rlen()?;
+        let len = self
+            .rlen()?
+            .checked_sub(1)
+            .ok_or_else(|| io::Error::new(io::ErrorKind::InvalidData, "invalid rlen"))?;
 
-        start.checked_add(len - 1).ok_or_else(|| {
+        start.checked_add(len).ok_or_else(|| {
             io::Error::new(
                 io::ErrorKind::InvalidData,
                 "calculation of the end position overflowed",
@@ -292,5 +294,39 @@ impl vcf::variant::Record for Record {
     fn samples(&self) -> io::Result<Box<dyn vcf::variant::record::Samples + '_>> {
         self.samples()
             .map(|samples| Box::new(samples) as Box<dyn vcf::variant::record::Samples>)
+    }
+}
+
+#[cfg(test)]
+mod tests {
+    use super::*;
+
+    fn build_record(pos: i32, rlen: i32) -> Record {
+        let mut record = Record::default();
+
+        let site_buf = record.fields_mut().site_buf_mut();
+        site_buf[4..8].copy_from_slice(&pos.to_le_bytes());
+        site_buf[8..12].copy_from_slice(&rlen.to_le_bytes());
+
+        record
+    }
+
+    #[test]
+    fn test_end() -> Result<(), Box<dyn std::error::Error>> {
+        let record = build_record(7, 5);
+        assert_eq!(record.end()?, Position::try_from(12)?);
+
+        // telomeric start
+        let record = build_record(-1, 1);
+        assert!(record.variant_start().is_none());
+        assert_eq!(record.end()?, Position::MIN);
+
+        let record = build_record(7, 0);
+        assert!(matches!(
+            record.end(),
+            Err(e) if e.kind() == io::ErrorKind::InvalidData
+        ));
+
+        Ok(())
     }
 }
